@@ -39,6 +39,8 @@ pub struct Profile {
     /// chance (per random op) of undoing pause / closed / unregistered states
     pub heal_pct: u64,
     pub shutdown_pct: u64,
+    /// per-mille chance of an address-aliasing attack instead of a random op
+    pub alias_pct: u64,
 }
 
 impl Default for Profile {
@@ -61,6 +63,7 @@ impl Default for Profile {
             mismatch_decimals_pct: 50,
             heal_pct: 30,
             shutdown_pct: 25,
+            alias_pct: 15,
         }
     }
 }
@@ -685,7 +688,32 @@ impl Gen {
         }
     }
 
+    /// Hostile input: position records are keyed by hash(vamm ++ trader) without a separator, so the
+    /// pair (vamm ++ prefix-of-victim, rest-of-victim) aliases the victim's record. An attacker account
+    /// named like the tail of a victim's address sends engine messages naming the crafted vAMM string.
+    pub fn rand_alias_attack(&mut self, h: &mut History, r: &mut Report) -> Rc<Step> {
+        let Some((victim, v)) = self.rand_pos(h) else { return self.rand_advance(h, r) };
+        let k = self.rng.range(1, (victim.len() as u64 - 1).max(1)) as usize;
+        let fake_vamm = format!("{}{}", Self::vaddr(h, v), &victim[..k]);
+        let attacker = victim[k..].to_string();
+        let d = h.w.d;
+        let msg = match self.rng.below(6) {
+            0 | 1 => eng::ExecuteMsg::ClosePosition { vamm: fake_vamm, quote_asset_limit: u(0) },
+            2 => eng::ExecuteMsg::WithdrawMargin { vamm: fake_vamm, amount: u(self.rng.log_uniform(1, 100 * d)) },
+            3 => eng::ExecuteMsg::DepositMargin { vamm: fake_vamm, amount: u(1) },
+            4 => eng::ExecuteMsg::OpenPosition { vamm: fake_vamm, side: side_of(self.rng.chance(1, 2)), margin_amount: u(d), leverage: u(d), base_asset_limit: u(0) },
+            _ => eng::ExecuteMsg::Liquidate { vamm: fake_vamm, trader: attacker.clone(), quote_asset_limit: u(0) },
+        };
+        let funds = if h.w.cw20.is_none() && matches!(msg, eng::ExecuteMsg::DepositMargin { .. }) { 1 } else { 0 };
+        let sender = if matches!(msg, eng::ExecuteMsg::Liquidate { .. }) { "stranger".to_string() } else { attacker };
+        let op = Op::Engine { sender, msg, funds };
+        self.do_step(h, r, op)
+    }
+
     pub fn rand_op(&mut self, h: &mut History, r: &mut Report) -> Rc<Step> {
+        if self.rng.chance(self.prof.alias_pct, 1000) {
+            return self.rand_alias_attack(h, r);
+        }
         if self.rng.chance(self.prof.heal_pct, 100) {
             self.heal(h, r);
         }
